@@ -41,6 +41,7 @@ type report struct {
 	Yields         int      `json:"yield_sites"`
 	EnvCalls       int      `json:"env_calls"`
 	Unrewritten    []string `json:"unrewritten"`
+	Unsupported    []string `json:"unsupported"`
 	Files          []string `json:"files"`
 	SeamFile       string   `json:"seam_file,omitempty"`
 	Sites          []site   `json:"sites"`
@@ -171,6 +172,9 @@ func main() {
 	}
 	fmt.Printf("instrumented %s mode=%s locks=%d mapranges=%d yields=%d env=%d unrewritten=%d\n",
 		p.PkgPath, *flagMode, rep.Locks, rep.MapRanges, rep.Yields, rep.EnvCalls, len(rep.Unrewritten))
+	for _, u := range rep.Unsupported {
+		fmt.Printf("UNSUPPORTED %s\n", u)
+	}
 }
 
 func stdHookFile(pkg string) string {
@@ -267,7 +271,7 @@ func (r *rewriter) hook(name string) string {
 	}
 	r.needImp = true
 	switch name {
-	case "MapKeys", "Yield", "Tick", "Lock", "Unlock", "RWLock", "RWUnlock", "RLock", "RUnlock", "ReadFile", "Glob", "DirFS":
+	case "MapKeys", "Yield", "Tick", "OnceDo", "Lock", "Unlock", "RWLock", "RWUnlock", "RLock", "RUnlock", "ReadFile", "Glob", "DirFS":
 		return "simrt." + name
 	}
 	panic(name)
@@ -334,7 +338,27 @@ func (r *rewriter) run() {
 			if doYields {
 				r.yieldAt(n.Body.Lbrace, "range")
 			}
+		case *ast.GoStmt:
+			r.rep.Unsupported = append(r.rep.Unsupported, r.p.Fset.Position(n.Pos()).String()+": go statement (the simulator owns every goroutine; library-started goroutines are not supported)")
+		case *ast.SendStmt:
+			r.rep.Unsupported = append(r.rep.Unsupported, r.p.Fset.Position(n.Pos()).String()+": channel send (tasks would block inside the Go runtime)")
+		case *ast.UnaryExpr:
+			if n.Op == token.ARROW {
+				r.rep.Unsupported = append(r.rep.Unsupported, r.p.Fset.Position(n.Pos()).String()+": channel receive (tasks would block inside the Go runtime)")
+			}
+		case *ast.SelectStmt:
+			r.rep.Unsupported = append(r.rep.Unsupported, r.p.Fset.Position(n.Pos()).String()+": select statement")
 		case *ast.CallExpr:
+			if sel, ok := n.Fun.(*ast.SelectorExpr); ok {
+				if s := r.p.TypesInfo.Selections[sel]; s != nil && s.Kind() == types.MethodVal {
+					if fn, ok := s.Obj().(*types.Func); ok && fn.Pkg() != nil && fn.Pkg().Path() == "sync" {
+						switch fn.FullName() {
+						case "(*sync.WaitGroup).Wait", "(*sync.Cond).Wait":
+							r.rep.Unsupported = append(r.rep.Unsupported, r.p.Fset.Position(n.Pos()).String()+": "+fn.FullName()+" (blocks inside the Go runtime)")
+						}
+					}
+				}
+			}
 			if doLocks {
 				r.rewriteLock(n)
 			}
@@ -520,7 +544,7 @@ func (r *rewriter) rewriteMapRange(n *ast.RangeStmt, mt *types.Map) bool {
 
 func (r *rewriter) rewriteLock(c *ast.CallExpr) {
 	sel, ok := c.Fun.(*ast.SelectorExpr)
-	if !ok || len(c.Args) != 0 {
+	if !ok {
 		return
 	}
 	s := r.p.TypesInfo.Selections[sel]
@@ -539,8 +563,15 @@ func (r *rewriter) rewriteLock(c *ast.CallExpr) {
 	if !ok {
 		return
 	}
+	if named.Obj().Name() == "Once" && fn.Name() == "Do" && len(c.Args) == 1 {
+		// handled below (one argument)
+	} else if len(c.Args) != 0 {
+		return
+	}
 	var hook string
 	switch named.Obj().Name() + "." + fn.Name() {
+	case "Once.Do":
+		hook = "OnceDo"
 	case "Mutex.Lock":
 		hook = "Lock"
 	case "Mutex.Unlock":
@@ -566,6 +597,12 @@ func (r *rewriter) rewriteLock(c *ast.CallExpr) {
 	arg := "&(" + x + ")"
 	if _, isPtr := xt.Underlying().(*types.Pointer); isPtr {
 		arg = x
+	}
+	if hook == "OnceDo" {
+		// keep the argument text; only the callee changes
+		r.add(r.off(c.Pos()), r.off(c.Lparen)+1-r.off(c.Pos()), fmt.Sprintf("%s(%s, ", r.hook(hook), arg))
+		r.rep.Locks++
+		return
 	}
 	start, end := r.off(c.Pos()), r.off(c.End())
 	r.add(start, end-start, fmt.Sprintf("%s(%s)", r.hook(hook), arg))
